@@ -17,7 +17,7 @@ ASSUMPTIONS = ["Gauss-Legendre quadrature error < 1e-12 for n <= 400 (panels res
 EXPLANATION = "direct evaluation of the real coefficient classes and the real time functions"
 
 WAVES = ["const", "cos", "sin", "rect", "tri", "saw"]
-AMPS = [1.0, -2.0, 2.5, 1e-3]
+AMPS = [1.0, -2.0, 2.5, 1e-3, 2e-9, -4e7]
 PHASES = [0.0, math.pi / 3, -math.pi / 3, math.pi / 2, math.pi, 2 * math.pi + 0.3, -7.5, 40 * math.pi + 1]
 OFFSETS = [0.0, 1.0, -1.5]
 PERIODS = [1.0, 2 * math.pi, 1e-3, 50.0]
